@@ -722,3 +722,89 @@ def storagecrash_family(run, replay=None):
                         nontrivial=lambda b: b['steps'][0].get('old') != b['steps'][0].get('new'), extra_cov=extra,
                         fpfun=lambda rule, b, line: '%s/%s,old=%s,new=%s,point=%s,key=%s' % (rule, line.get('op'), 'absent' if line.get('old') == 'absent' else 'present', 'x', line.get('point'), line.get('key')))
     return rc
+
+
+# =====================================================================================================
+# Lifecycle + SetupCode (C20)
+# =====================================================================================================
+
+LC_GUARDS = ["uuid_loaded", "keypair_loaded", "hash_ignores_values", "version_bumped", "sf_from_pairings", "sf_updated_on_pair", "sf_updated_on_unpair"]
+LC_RULES = {'IdentityStable': 'C20', 'SfRule': 'C20', 'CnumRule': 'C20', 'PairingsPersist': 'C20', 'ActionAccepted': 'C20', 'PinRule': 'C20', 'UriRule': 'C20'}
+
+
+def lc_cfg(weak=(), tail='', consts=''):
+    return 'CONSTANTS\n  Structure = {"s1", "s2"}\n  Ctrl = {"a", "b"}\n  MaxGen = 3\n  Weak = %s\n  %s\nCHECK_DEADLOCK FALSE\n%s\n' % (tla_set(weak), consts, tail)
+
+
+def lifecycle_gen(run):
+    thorough = run.tier == 'thorough'
+    run.model_check('Lifecycle', 'Lifecycle_MC.cfg', workers=4)
+    t = 'INIT GInit\nNEXT GNext\n'
+    edge = dedupe_prefixes(run.generate('LifecycleGen', cfgtext=lc_cfg(tail=t + 'INVARIANT EmitEdge\nVIEW EdgeView\nCONSTRAINT Bound')))
+    n = 5 if thorough else 4
+    words = run.generate('LifecycleGen', cfgtext=lc_cfg(consts='MaxLen = %d' % n, tail=t + 'INVARIANT EmitWord\nCONSTRAINT WordBound'), timeout=1200)
+    nall = len(words)
+    words = sample(words, 1500 if thorough else 60, run.seed)
+    if not thorough:
+        edge = sample(edge, 60, run.seed)
+    attacks = []
+    for g in LC_GUARDS:
+        a = run.generate('LifecycleGen', cfgtext=lc_cfg(weak=[g], tail=t + 'INVARIANT NoAttack\nVIEW AttackView\nCONSTRAINT Bound'), expect_violation=True)
+        if not a:
+            raise ToolTrouble('no attack history for guard %s' % g)
+        attacks.append((g, a[0]))
+    groups = [('edge', edge), ('word', words)] + [('attack:' + g, [a]) for g, a in attacks]
+    return groups, dict(edge_words=len(edge), words_enumerated=nall, words_replayed=len(words), word_len=n, attack_words=len(attacks))
+
+
+@register('C20')
+def lifecycle_family(run, replay=None):
+    if replay:
+        return generic_family(run, replay, hcv='lifecycle', trace_mod='LifecycleTrace', gen=lifecycle_gen, rules=LC_RULES, level='model_checking',
+                              assumptions=[], rule_text='replay', nontrivial=lambda b: True)
+    # part 1: setup codes and the setup URI
+    run.build_harness()
+    spath = os.path.join(run.dir, 'setup.ndjson')
+    out = run.harness('setupcode', ['--trace', spath, '--seed', run.seed, '--tier', run.tier], timeout=3000)
+    log('  ' + out.strip().splitlines()[-1][:300])
+    sviol, _, _ = run.validate('SetupCode', 'SetupCode.cfg', spath)
+    slines = read_ndjson(spath)
+    setup_beh = [dict(id=1, kind='pins', steps=[dict(a='ValidatePin')]), dict(id=2, kind='uris', steps=[dict(a='XHMURI')]), dict(id=3, kind='sweep', steps=[dict(a='Sweep')])]
+    setup_bad = []
+    for v in sviol:
+        line = slines[v[1] - 1]
+        what = line.get('chars') if line.get('ev') == 'pin' else {k: line.get(k) for k in ('code', 'cat', 'flags')} if line.get('ev') == 'uri' else line.get('samples')
+        setup_bad.append((v[0], line.get('ev'), what))
+    # part 2: restarts
+    sweep = [x for x in slines if x.get('ev') == 'sweep']
+
+    def extra(lines, behs):
+        return dict(pins_evaluated=sum(1 for x in slines if x.get('ev') == 'pin'), uris_evaluated=sum(1 for x in slines if x.get('ev') == 'uri'),
+                    full_code_sweep=bool(sweep), sweep_codes=100000000 if sweep else 0,
+                    transport_starts=sum(1 for x in lines if x.get('a') == 'start' and not x.get('skipped')),
+                    pairings_via_pair_setup=sum(1 for x in lines if x.get('a') == 'pair' and x.get('ok')),
+                    removals_via_pairings_endpoint=sum(1 for x in lines if x.get('a') == 'unpair' and x.get('ok')),
+                    setup_rule_violations=len(setup_bad))
+    rc = generic_family(run, None, hcv='lifecycle', trace_mod='LifecycleTrace', gen=lifecycle_gen, rules=LC_RULES, level='model_checking',
+                        assumptions=['pairing is done through real pair-setup with the reference controller, removal through /pairings on a pair-verified connection; structures are two different accessory sets; value changes go through the application API',
+                                     'TXT records are read through the verif accessor VerifTXT(); the device id is also read from the uuid file',
+                                     'setup codes: recorded evaluations of hc.ValidatePin / util.XHMURI are judged by the ValidPin operator of SetupCode.tla and by an independent base-36 decoder; the sweep over all 10^8 codes (thorough tier) runs in Go against a reference predicate whose agreement with the TLA+ operator is checked on the recorded sample'],
+                        rule_text='TLC-generated histories of start / pair / unpair / value change / stop / restart with the same or a structurally different accessory set on one storage directory (one word per model transition, words up to the stated length sampled, one attack history per named guard); setup codes: all trivial codes, lengths 0..10, non-digit and non-ASCII strings, random codes; URIs: all 256 categories x 16 flag sets; distinct = abstract history; non-trivial = contains a restart or a pairing change',
+                        nontrivial=lambda b: sum(1 for s in b['steps'] if s.get('a') in ('start', 'pair', 'unpair')) >= 2, extra_cov=extra)
+    if setup_bad:
+        known = load_known(run.prop)
+        fresh = []
+        for rule, ev, what in setup_bad:
+            fp = '%s/%s' % (rule, ev)
+            if fp in known:
+                log('KNOWN-FINDING: property=%s %s (%s)' % (run.prop, known[fp], fp))
+            else:
+                fresh.append((fp, what))
+        if fresh:
+            path = os.path.join(ROOT, 'replays', 'C20-setupcode.json')
+            with open(path, 'w') as f:
+                json.dump(dict(property='C20', family='setupcode', violations=[dict(fingerprint=fp, input=w) for fp, w in fresh[:50]]), f, indent=1)
+            log('VIOLATION property=C20 replay=%s' % path)
+            log('  %s' % str(fresh[:3])[:300])
+            return 1
+    return rc
